@@ -10,6 +10,7 @@ package main
 import (
 	"context"
 	"fmt"
+	"sync/atomic"
 	"time"
 
 	"github.com/pinealctx/neptune/queue/priq"
@@ -20,7 +21,20 @@ import (
 	"github.com/pinealctx/neptune/syncx/pipe/q"
 )
 
-const hangTimeout = 30 * time.Second
+// The watchdog: 30 s for a call the model says returns.  Once one call of this run has really not returned (the run is
+// already a violation with that call as its concrete case) further waits are cut to 2 s so that the other histories still
+// get their turn; on the unchanged tree no call ever reaches the watchdog, so this cannot produce an alarm.
+const hangTimeoutFirst = 30 * time.Second
+
+var hangSeen int32
+
+func hangTimeout() time.Duration {
+	if atomic.LoadInt32(&hangSeen) != 0 {
+		return 2 * time.Second
+	}
+	return hangTimeoutFirst
+}
+func noteHang() { atomic.StoreInt32(&hangSeen, 1) }
 
 var cancelledCtx = func() context.Context {
 	c, cancel := context.WithCancel(context.Background())
@@ -145,12 +159,13 @@ func guarded(f func() obs) (obs, bool) {
 		}()
 		ch <- f()
 	}()
-	t := time.NewTimer(hangTimeout)
+	t := time.NewTimer(hangTimeout())
 	defer t.Stop()
 	select {
 	case r := <-ch:
 		return r, false
 	case <-t.C:
+		noteHang()
 		return obs{"other", otherHang}, true
 	}
 }
@@ -237,6 +252,7 @@ type op struct {
 type queue interface {
 	apply(o op) (r obs, hung bool)
 	applyRaw(o op) (r obs, hung bool) // the call itself, no shadow, no watchdog: for the concurrent rounds (race.go)
+	lost() bool                       // the harness' shadow no longer matches what the queue hands out
 	canHold(held, rel op) bool        // may `held` (a call that blocks now) be started and then released by `rel`, deterministically?
 	noteHeld(held op, r obs)          // shadow update for the result of a held call
 	release()                         // wake whatever a hung call left behind
@@ -250,6 +266,8 @@ type shadow struct {
 	level  map[int64][2]int // how many pending copies of this item per level (boundary values may be queued more than once)
 	closed bool
 	cap    [2]int
+	// confused: a pop handed out an item that was not pending (invented / duplicated): stop the history here
+	confused bool
 }
 
 func newShadow(c0, c1 int) *shadow { return &shadow{level: map[int64][2]int{}, cap: [2]int{c0, c1}} }
@@ -270,6 +288,8 @@ func (s *shadow) handedOut(r obs) {
 			s.n[lv]--
 			c[lv]--
 			s.level[r.v] = c
+		} else {
+			s.confused = true // handed out something that was not pending: the harness no longer knows what is queued
 		}
 	}
 }
@@ -910,3 +930,8 @@ func (s *syncQ) canHold(held, rel op) bool {
 func (s *syncQ) noteHeld(held op, r obs)  { s.sh.handedOut(r) }
 func (p *priQ) canHold(held, rel op) bool { return false }
 func (p *priQ) noteHeld(held op, r obs)   {}
+
+func (p *pipeQ) lost() bool { return p.sh.confused }
+func (m *mqQ) lost() bool   { return m.sh.confused }
+func (s *syncQ) lost() bool { return s.sh.confused }
+func (p *priQ) lost() bool  { return false }
